@@ -71,8 +71,10 @@ def fmtOffsetId (env : Env A) : Option Int → Str
   | none => noneStr
 
 /-- `EdgeOdometry.to_g2o` (edge_odometry.py:131-147) and `EdgeLandmark.to_g2o` (edge_landmark.py:138-159), `BaseEdge.to_g2o`
-for custom edges; `k0` is the class of `self.vertices[0].pose`.  `none` = the method returned `None`. -/
-def Edge.toG2O (env : Env A) (k0 : PoseKind) (e : Edge A) : Except PyErr (Option Str) :=
+for custom edges; `k0` is the class of `self.vertices[0].pose`, `k1` that of `self.vertices[1].pose` (only the landmark
+writer looks at it, and only after the test on `k0` succeeded: `isinstance(v[0].pose, PoseSE2) and isinstance(v[1].pose, PoseR2)`).
+`none` = the method returned `None`. -/
+def Edge.toG2O (env : Env A) (k0 : PoseKind) (k1 : Except PyErr PoseKind) (e : Edge A) : Except PyErr (Option Str) :=
   match e.body with
   | .odometry est =>
     match k0 with
@@ -92,19 +94,27 @@ def Edge.toG2O (env : Env A) (k0 : PoseKind) (e : Edge A) : Except PyErr (Option
   | .landmark est off oid =>
     match k0 with
     | .se2 =>
-      if numEqList env off.xs (identitySE2 env) then
-        match fmtIds env e.ids 2, fmtEntries env est.xs 2, fmtInfo env e.info 2 with
-        | .ok is, .ok fs, .ok ms => .ok (some (fmtEdgeLine T.edgeSE2XY (is ++ fs) ms))
+      match k1 with
+      | .error x => .error x
+      | .ok .r2 =>
+        if numEqList env off.xs (identitySE2 env) then
+          match fmtIds env e.ids 2, fmtEntries env est.xs 2, fmtInfo env e.info 2 with
+          | .ok is, .ok fs, .ok ms => .ok (some (fmtEdgeLine T.edgeSE2XY (is ++ fs) ms))
+          | .error x, _, _ => .error x
+          | _, .error x, _ => .error x
+          | _, _, .error x => .error x
+        else .error .notImplementedError
+      | .ok _ => .error .notImplementedError
+    | .se3 =>
+      match k1 with
+      | .error x => .error x
+      | .ok .r3 =>
+        match fmtIds env e.ids 2, fmtEntries env est.xs 3, fmtInfo env e.info 3 with
+        | .ok is, .ok fs, .ok ms => .ok (some (fmtEdgeLine T.edgeSE3TrackXYZ (is ++ fmtOffsetId env oid :: fs) ms))
         | .error x, _, _ => .error x
         | _, .error x, _ => .error x
         | _, _, .error x => .error x
-      else .error .notImplementedError
-    | .se3 =>
-      match fmtIds env e.ids 2, fmtEntries env est.xs 3, fmtInfo env e.info 3 with
-      | .ok is, .ok fs, .ok ms => .ok (some (fmtEdgeLine T.edgeSE3TrackXYZ (is ++ fmtOffsetId env oid :: fs) ms))
-      | .error x, _, _ => .error x
-      | _, .error x, _ => .error x
-      | _, _, .error x => .error x
+      | .ok _ => .error .notImplementedError
     | _ => .error .notImplementedError
   | .custom _ _ out => .ok out
 
@@ -131,6 +141,15 @@ def Edge.kind0 (vs : List (Vertex A)) (e : Edge A) : Except PyErr PoseKind :=
     | some v => .ok v.pose.kind
     | none => .error .unbound
 
+/-- the class of `e.vertices[1].pose` (`IndexError` for an edge with a single vertex) -/
+def Edge.kind1 (vs : List (Vertex A)) (e : Edge A) : Except PyErr PoseKind :=
+  match e.ids with
+  | _ :: i :: _ =>
+    match lookupVertex vs i with
+    | some v => .ok v.pose.kind
+    | none => .error .unbound
+  | _ => .error .indexError
+
 /-- what one edge contributes to the file -/
 def Edge.write (env : Env A) (vs : List (Vertex A)) (e : Edge A) : Except PyErr Str :=
   match e.body with
@@ -139,7 +158,7 @@ def Edge.write (env : Env A) (vs : List (Vertex A)) (e : Edge A) : Except PyErr 
     match Edge.kind0 vs e with
     | .error x => .error x
     | .ok k0 =>
-      match Edge.toG2O env k0 e with
+      match Edge.toG2O env k0 (Edge.kind1 vs e) e with
       | .error x => .error x
       | .ok none => .ok []
       | .ok (some s) => .ok s
